@@ -19,6 +19,7 @@ CONSTANTS MaxLen,      \* all digit strings up to this length
           Mode,        \* "short": all short strings; "patterns": boundary patterns; "main": both;
                        \* "extreme": settings beyond the sane range
           OptPick,     \* "all": every option set of the table; "hash": one option set per case (by a hash)
+          WideMod,     \* boundary patterns: 1 = every option set of the wide table, m = every m-th (by a hash)
           Emit         \* "cases" | "none"
 
 EMin == ELo - 100
@@ -98,6 +99,7 @@ Init == /\ stage = "seed" /\ e = 0 /\ oi = 0
 CanonDigits == cls # "fin" \/ ds[Len(ds)] # 0 \/ ds = <<0>>
 Picks == IF OptPick = "hash" /\ tab = "short" /\ Len(ds) = MaxLen
          THEN {(Hash(ds, e) % Len(ShortOpts)) + 1}
+         ELSE IF tab = "wide" THEN {k \in OptIdx(tab) : (Hash(ds, e) + k) % WideMod = 0}
          ELSE OptIdx(tab)
 
 Next == \/ /\ stage = "seed"
